@@ -40,8 +40,10 @@ func (eu *executeUnit) cycle(ctx *risc.Context, app risc.Application, inBus *com
 		if eu.memory != nil {
 			memory = eu.memory
 		} else {
-			line := eu.mmu.fetchCacheLine(eu.addrs[0])
-			eu.mmu.pushLineToL1D(comp.AlignedAddress(eu.addrs[0]), line)
+			// Lines are aligned on their size: two lines never overlap
+			base := eu.addrs[0] - eu.addrs[0]%l1DCacheLineSize
+			line := eu.mmu.fetchCacheLine(base)
+			eu.mmu.pushLineToL1D(comp.AlignedAddress(base), line)
 			m, exists := eu.mmu.getFromL1D(eu.addrs)
 			if !exists {
 				panic("cache line doesn't exist")
